@@ -7,7 +7,9 @@ ids="$*"; [ -z "$ids" ] && ids=$(ls "$base")
 cd /repo || exit 2
 if [ -n "$(git status --porcelain)" ]; then echo "/repo is dirty; commit or stash first" >&2; exit 2; fi
 for id in $ids; do
-  p="$base/$id/patch.diff"; [ -f "$p" ] || p="$base/$id/SEED/patch.diff"
+  # patch-ported.diff: the same change re-made by hand on the current code, for the patches whose context a later
+  # fix commit rewrote (the original patch.diff is kept as the sub-agent wrote it)
+  p="$base/$id/patch-ported.diff"; [ -f "$p" ] || p="$base/$id/patch.diff"; [ -f "$p" ] || p="$base/$id/SEED/patch.diff"
   [ -f "$p" ] || continue
   # later fix commits moved the context of some older patches: fall back to a three-way apply
   if ! git apply "$p" 2>/dev/null; then
